@@ -25,6 +25,13 @@ Theorem lock_balance : balance_ok dagsync_funcs = true.
 Proof. exact balance_holds. Qed.
 Print Assumptions lock_balance.
 
+(* every caller of handler.handle in the package (SyncAdChain, asyncSyncAdChain, syncEntries --
+   i.e. SyncEntries / SyncOneEntry / SyncHAMTEntries -- and any future one) takes the
+   per-publisher syncMutex before the call *)
+Theorem handle_called_under_sync_lock : handle_callers_ok dagsync_funcs = true.
+Proof. exact handle_callers_hold. Qed.
+Print Assumptions handle_called_under_sync_lock.
+
 Theorem handlers_mutex_nonblocking : handlers_mutex_ok dagsync_funcs = true.
 Proof. exact handlers_mutex_holds. Qed.
 Print Assumptions handlers_mutex_nonblocking.
@@ -155,7 +162,7 @@ Print Assumptions quiescent_latest_refuted.
 (* ---- every advertisement in between reported exactly once ---- *)
 
 Theorem stop_is_current : forall cap s t th,
-  reach fixed cap s -> threads s t = Some th -> stop_ok (t_pc th) = true ->
+  reach fixed cap s -> threads s t = Some th -> is_entries (t_kind th) = false -> stop_ok (t_pc th) = true ->
   t_stop th = latest s (t_pub th).
 Proof. exact stop_is_current. Qed.
 Print Assumptions stop_is_current.
@@ -227,7 +234,8 @@ Module XP := Proofs.Compose_C08_C01.
    SyncAdChain hands the hook when the latest sync is the session's stop *)
 Theorem session_reports_c01_segment :
   forall cap s t th extra ch pub store segdl explicit,
-  reach fixed cap s -> threads s t = Some th -> t_ok th = true -> t_todo th = [] ->
+  reach fixed cap s -> threads s t = Some th -> is_entries (t_kind th) = false ->
+  t_ok th = true -> t_todo th = [] ->
   K1.chain_wf K1.EPrev extra ch = true -> Y.in_range ch (t_msg th) -> t_stop th <= List.length ch ->
   let head := Y.cid_of ch (t_msg th) in
   let stop := Y.stop_of ch (t_stop th) in
@@ -244,7 +252,7 @@ Print Assumptions session_reports_c01_segment.
 (* while the session is running: reported ++ still owed = the segment *)
 Theorem session_progress_c01 :
   forall cap s t th extra ch,
-  reach fixed cap s -> threads s t = Some th -> t_ok th = true ->
+  reach fixed cap s -> threads s t = Some th -> is_entries (t_kind th) = false -> t_ok th = true ->
   K1.chain_wf K1.EPrev extra ch = true -> Y.in_range ch (t_msg th) -> t_stop th <= List.length ch ->
   Y.cids ch (X.session_log s t ++ t_todo th) =
   K1.segment ch (Y.cid_of ch (t_msg th)) (Y.stop_of ch (t_stop th)) None.
@@ -255,7 +263,7 @@ Print Assumptions session_progress_c01.
    sync at that moment *)
 Theorem session_stop_is_c01_stop :
   forall cap s t th ch segdl explicit head store,
-  reach fixed cap s -> threads s t = Some th -> stop_ok (t_pc th) = true ->
+  reach fixed cap s -> threads s t = Some th -> is_entries (t_kind th) = false -> stop_ok (t_pc th) = true ->
   let st := K1.ST (Y.stop_of ch (latest s (t_pub th))) store in
   Y.stop_of ch (t_stop th) = K1.go_stop (X.c08_cfg segdl) st (X.c08_call explicit head) /\
   Y.stop_of ch (t_stop th) =
